@@ -103,7 +103,7 @@ impl Property for Spellings {
     fn budget(&self, tier: Tier) -> Budget {
         Budget {
             cases: tier.pick(300_000, 20_000_000),
-            tape_len: 800,
+            tape_len: 2500,
         }
     }
     fn decode(&self, t: &mut Tape<'_>) -> PairCase {
@@ -229,7 +229,7 @@ impl Property for Ambiguity {
     fn budget(&self, tier: Tier) -> Budget {
         Budget {
             cases: tier.pick(150_000, 5_000_000),
-            tape_len: 500,
+            tape_len: 1500,
         }
     }
     fn decode(&self, t: &mut Tape<'_>) -> AmbCase {
